@@ -97,11 +97,33 @@ func c10Call(v *verifFS, op int, name, other string) error {
 			return err
 		}
 		return h.Close()
+	case 16, 17:
+		// a handle whose read stream has been started (a seek, or a read and a seek back) and is then written to
+		h, err := f.OpenFile(name, os.O_RDWR, 0)
+		if err != nil {
+			return err
+		}
+		if op == 17 {
+			buf := make([]byte, 1)
+			if _, err := h.Read(buf); err != nil {
+				h.Close()
+				return err
+			}
+		}
+		if _, err := h.Seek(0, 0); err != nil {
+			h.Close()
+			return err
+		}
+		if _, err := h.Write([]byte("x")); err != nil {
+			h.Close()
+			return err
+		}
+		return h.Close()
 	}
 	return nil
 }
 
-const c10Ops = 16
+const c10Ops = 18
 
 // Harness_C10_call_returns_and_frees_drive: one call with at most one injected fault (drive open, stat,
 // seek, read, write, close, truncate; every index-store statement; user lookup): the call returns,
